@@ -21,8 +21,8 @@ ASSUMPTIONS = ["model domain: numeric fields are plain ASCII digit/hex strings a
                "Unicode-aware strip/title) are detected by instrumentation and skipped for the correspondence (count in coverage.distribution)",
                "theorem side condition GoodRun: no header block announces both 'Transfer-Encoding: chunked' and a positive Content-Length (RFC 7230 3.3.3); "
                "the implementation is split-dependent on such messages - observed on this run and reported as 'both-framings-split-dependent' (not a violation: outside 'well-formed')",
-               "correctness against the writer is a theorem for messages framed by Content-Length or carrying no body, with header names in canonical form (C07_written_stream_any_segmentation over Spec/HttpWriter.lean); "
-               "for chunked messages and non-canonical header spellings (casing, padding) the expected messages come from this harness's own grammar (oracle on this run's samples), and the segmentation theorem extends each sample to all of its splits"]
+               "correctness against the writer is a theorem for all three framings (Content-Length, chunked, no body) with header names and values in canonical form (C07_written_stream_any_segmentation over Spec/HttpWriter.lean); "
+               "for non-canonical header spellings (casing, padding around the colon) the expected messages come from this harness's own grammar (oracle on this run's samples), and the segmentation theorem extends each sample to all of its splits"]
 EXPLANATION = ("Lean theorems C07_* over the model of HttpResponse.parse + data_received loop: segmentation independence (feed (a++b) = feed a; feed b, lifted to any list of reads, any stream) and "
                "correctness for every segmentation of every stream written by the independent writer of Spec/HttpWriter.lean (the parser returns exactly the messages written and consumes exactly their bytes); "
                "differential tie on data_received")
@@ -159,6 +159,44 @@ def gen_msg(rng, small=False):
     return kind + b" %d " % code + reason + b"\r\n" + b"".join(x + b"\r\n" for x in h) + b"\r\n", (kind.split(b"/")[0].decode(), code, exp_headers(h), b""), ("bodyless", len(h))
 
 
+CANON_HDRS = [(b"Content-Type", b"application/hap+json"), (b"X-Foo-Bar", b"v  v"), (b"Date", b"Mon, 01 Jan 2024 00:00:00 GMT"), (b"A1B-C", b"x"),
+              (b"Cache-Control", b"no-cache"), (b"Server", b"hap/1.0 (x; y)")]
+
+
+def gen_written(rng, small=False):
+    """a message in the writer spec's vocabulary: returns (driver token, python-built bytes, expected (name, code, headers, body), shape)"""
+    ver = rng.choice([b"HTTP/1.1", b"EVENT/1.0", b"HTTP/1.0"])
+    code = rng.choice([200, 204, 207, 400, 470, 500])
+    reason = rng.choice([b"OK", b"No Content", b"Multi-Status", b"Multi Status  x", b""])
+    hs = rng.sample(CANON_HDRS, rng.randint(0, 1 if small else 4))
+    maxb = 12 if small else 600
+    t = rng.random()
+    head = ver + b" %d " % code + reason + b"\r\n" + b"".join(n + b": " + v + b"\r\n" for n, v in hs)
+    htok = ",".join(f"{hx(n)}={hx(v)}" for n, v in hs) or "."
+    if t < 0.4:
+        body = rbody(rng, rng.choice([0, 1, 2, rng.randint(0, maxb)]))
+        lt = b"%d" % len(body) if rng.random() < 0.8 else b"%04d" % len(body)
+        raw = head + b"Content-Length: " + lt + b"\r\n\r\n" + body
+        fr, fh, shape = "L:" + hx(lt), [(b"Content-Length", lt)], ("w-cl", len(body), len(hs))
+    elif t < 0.8:
+        chunks = []
+        for _ in range(rng.randint(0, 2 if small else 5)):
+            c = rbody(rng, rng.choice([1, 2, rng.randint(1, 6 if small else 80)]))
+            sz = rng.choice([b"%x", b"%X", b"%03x"]) % len(c)
+            chunks.append((sz, c))
+        body = b"".join(c for _, c in chunks)
+        raw = head + b"Transfer-Encoding: chunked\r\n\r\n" + b"".join(sz + b"\r\n" + c + b"\r\n" for sz, c in chunks) + b"0\r\n\r\n"
+        fr = "C:" + (",".join(f"{hx(sz)}={hx(c)}" for sz, c in chunks) or ".")
+        fh, shape = [(b"Transfer-Encoding", b"chunked")], ("w-chunked", tuple(len(c) for _, c in chunks), len(hs))
+    else:
+        body = b""
+        raw = head + b"\r\n"
+        fr, fh, shape = "N", [], ("w-bodyless", len(hs))
+    tok = ";".join([hx(ver), hx(b"%d" % code), hx(reason), htok, fr, hx(body)])
+    exp = (ver.split(b"/")[0].decode(), code, [(n.decode(), v.decode()) for n, v in hs + fh], body)
+    return tok, raw, exp, shape
+
+
 def exp_str(e):
     name, code, headers, body = e
     hs = ",".join(f"{hx(a.encode())}={hx(b.encode())}" for a, b in headers) or "."
@@ -231,6 +269,39 @@ def run(ctx: Ctx, driver: Driver):
         else:
             cuts = tuple(sorted(set(rng.randrange(1, L) for _ in range(rng.choice([0, 1, 2, 3, 8, 30])))))
         one("multi-cut", stream, cuts, expected, shapes, True)
+    # streams in the vocabulary of the writer specification (Spec/HttpWriter.lean): the driver certifies each message
+    # (goodB, proved sound), writes the bytes with the spec's `write` and states the messages the theorem promises;
+    # those bytes must be the ones this harness builds itself, and the real parser must return those messages
+    # under every cut tried
+    wl, wmeta = [], []
+    for _ in range(ctx.budget(120, 2500)):
+        ms = [gen_written(rng, small=rng.random() < 0.3) for _ in range(rng.randint(1, 4))]
+        wl.append("http.write " + " ".join(m[0] for m in ms))
+        wmeta.append(ms)
+    for ms, ans in zip(wmeta, driver.run(wl)):
+        f = ans.split(" ")
+        stream = b"".join(m[1] for m in ms)
+        expected = [exp_str(m[2]) for m in ms]
+        case = {"stream": "feed", "kind": "written", "chunks": [hx(stream)]}
+        ctx.evaluations += 1
+        if len(f) < 3 or f[0] != "good=1":
+            ctx.mismatch("written", case, "well-formed message of the harness's writer", ans[:160])
+            continue
+        if f[1] != hx(stream):
+            ctx.mismatch("written", case, hx(stream)[:200], f[1][:200])
+            continue
+        if f[2:] != expected:
+            ctx.mismatch("written", case, " ".join(expected)[:300], " ".join(f[2:])[:300])
+            continue
+        L = len(stream)
+        shapes = tuple(m[3] for m in ms)
+        for _ in range(ctx.budget(4, 8)):
+            mode = rng.randrange(5)
+            if mode == 0 and L < 400:
+                cuts = tuple(range(1, L))
+            else:
+                cuts = tuple(sorted(set(rng.randrange(1, L) for _ in range(rng.choice([0, 1, 2, 3, 8, 30])))))
+            one("written", stream, cuts, f[2:], shapes, mode == 1)
     # truncated well-formed streams: messages completed so far only, no error
     for _ in range(ctx.budget(150, 3000)):
         ms = [gen_msg(rng) for _ in range(rng.randint(1, 3))]
